@@ -1,12 +1,12 @@
 CONSTANTS
-  Keys <- KeysS
-  DataKeys <- KeysS
+  Keys <- KeysM
+  DataKeys <- DataM
   Vals = {"a", ""}
-  Prefixes <- PfxS
+  Prefixes <- PfxM
   Stores = {"s1"}
   MaxLayers = 3
   MaxLen = 5
-  InitBases <- Bases3
+  InitBases <- Bases2
   ReadAll = FALSE
   LogViews = FALSE
   Quiet = TRUE
